@@ -4,7 +4,8 @@
  *
  *   directory   <= VP_N entries returned by the ldb_get_children stub; each a
  *               symbolic owned (type, number, spelling variant) name or a
- *               foreign name, pairwise different (kit/vp_names.h encoding)
+ *               foreign name (kit/vp_names.h encoding; pairwise different by
+ *               the slot tag)
  *   live set    ldb_versions_add_files stub: <= VP_LIVE symbolic table numbers
  *   pending     db.pending_outputs: <= VP_PEND symbolic numbers, held by the
  *               small array model of the rb_set64 API below
@@ -190,8 +191,16 @@ ldb_get_children(const char *path, char ***out) {
     g_list_len = -1;
     return -1;
   }
-  for (i = 0; i < VP_N; i++)
+  for (i = 0; i < VP_N; i++) {
+    /* an entry unlinked by an earlier collection is gone: its slot now holds
+       somebody else's file */
+    if (!dir_present[i]) {
+      dir_owned[i] = 0;
+      dir_name[i][0] = 0;
+      dir_present[i] = 1;
+    }
     dir_list[i] = dir_name[i];
+  }
   *out = dir_list;
   g_list_len = dir_n;
   return dir_n;
@@ -297,7 +306,7 @@ gcworld_init_db(void) {
 /* symbolic directory of <= VP_N pairwise different names */
 static void
 gcworld_init_dir(void) {
-  int i, j;
+  int i;
   dir_n = vp_int();
   VP_ASSUME(dir_n >= 0 && dir_n <= VP_N);
   for (i = 0; i < VP_N; i++) {
@@ -308,15 +317,12 @@ gcworld_init_dir(void) {
     dir_num[i] = vp_u64();
     if (dir_owned[i] && (t == (int)LDB_FILE_CURRENT || t == (int)LDB_FILE_LOCK || t == (int)LDB_FILE_INFO))
       dir_num[i] = 0;
-    vp_name_make(dir_name[i], dir_owned[i], dir_type[i], dir_num[i], vp_bool());
+    vp_name_make(dir_name[i], dir_owned[i], dir_type[i], dir_num[i], vp_bool(), i);
+    vp_names_register(dir_name[i]);
     dir_present[i] = 1;
     g_removed[i] = 0;
     g_evicted[i] = 0;
   }
-  for (i = 0; i < VP_N; i++)
-    for (j = i + 1; j < VP_N; j++)
-      if (j < dir_n)
-        VP_ASSUME(!vp_name_same(dir_name[i], dir_name[j]));
 }
 
 static void
